@@ -254,6 +254,15 @@ theorem newPairs_length {n : Net} {p : Pop} {c : Choice} {a b : List Nat}
       obtain ⟨rfl, rfl⟩ := h
       exact ((isPerm_iff _ _).mp hp).length_eq.symm
     · simp at h
+  case randomPlain =>
+    split at h
+    · split at h
+      · rename_i hp
+        simp only [Except.ok.injEq, Option.some.injEq, Prod.mk.injEq] at h
+        obtain ⟨rfl, rfl⟩ := h
+        exact ((isPerm_iff _ _).mp hp).length_eq.symm
+      · simp at h
+    · simp at h
   case erdos | disk =>
     split at h
     · simp only [Except.ok.injEq, Option.some.injEq, Prod.mk.injEq] at h
@@ -280,7 +289,7 @@ theorem newPairs_length {n : Net} {p : Pop} {c : Choice} {a b : List Nat}
 
 /-- `spec`-like networks: every new endpoint is an active agent -/
 theorem newPairs_active {n : Net} {p : Pop} {c : Choice} {a b : List Nat}
-    (hs : n.variant = .spec ∨ (n.kind ≠ .erdos ∧ n.kind ≠ .disk))
+    (hs : n.variant = .spec ∨ (n.kind ≠ .erdos ∧ n.kind ≠ .disk ∧ n.kind ≠ .randomPlain))
     (h : n.newPairs p c = .ok (some (a, b))) : ∀ u ∈ a ++ b, u ∈ p.auids := by
   unfold Net.newPairs at h
   cases hk : n.kind <;> simp only [hk] at h
@@ -299,6 +308,28 @@ theorem newPairs_active {n : Net} {p : Pop} {c : Choice} {a b : List Nat}
       rcases List.mem_append.mp hu with hu | hu
       · exact hsrc u hu
       · exact hsrc u (((isPerm_iff _ _).mp hp).mem_iff.mp hu)
+    · simp at h
+  case randomPlain =>
+    have hv : n.variant = .spec := by
+      rcases hs with hs | hs
+      · exact hs
+      · exact absurd hk hs.2.2
+    split at h
+    · split at h
+      · rename_i hp
+        simp only [Except.ok.injEq, Option.some.injEq, Prod.mk.injEq] at h
+        obtain ⟨rfl, rfl⟩ := h
+        rw [hv] at hp ⊢
+        have hsrc : ∀ u ∈ plainSource .spec (p.auids.filter (fun u => p.alive u && decide (0 < p.age u))) c.counts, u ∈ p.auids := by
+          intro u hu
+          simp only [plainSource, List.mem_flatMap, List.mem_replicate] at hu
+          obtain ⟨ku, hku, _, rfl⟩ := hu
+          exact (List.mem_filter.mp (List.of_mem_zip hku).2).1
+        intro u hu
+        rcases List.mem_append.mp hu with hu | hu
+        · exact hsrc u hu
+        · exact hsrc u (((isPerm_iff _ _).mp hp).mem_iff.mp hu)
+      · simp at h
     · simp at h
   case erdos =>
     have hv : n.variant = .spec := by
@@ -320,7 +351,7 @@ theorem newPairs_active {n : Net} {p : Pop} {c : Choice} {a b : List Nat}
     have hv : n.variant = .spec := by
       rcases hs with hs | hs
       · exact hs
-      · exact absurd hk hs.2
+      · exact absurd hk hs.2.1
     split at h
     · rename_i hp
       simp only [Except.ok.injEq, Option.some.injEq, Prod.mk.injEq] at h
@@ -443,7 +474,7 @@ theorem nodup_interleave {p1 p2 a b : List Nat} (h1 : (p1 ++ p2).Nodup) (h2 : (a
 
 /-- the network is one whose `add_pairs` uses identifiers (every class in the `spec` variant; every class
     except ErdosRenyiNet and DiskNet as the code is today) -/
-def Net.specLike (n : Net) : Prop := n.variant = .spec ∨ (n.kind ≠ .erdos ∧ n.kind ≠ .disk)
+def Net.specLike (n : Net) : Prop := n.variant = .spec ∨ (n.kind ≠ .erdos ∧ n.kind ≠ .disk ∧ n.kind ≠ .randomPlain)
 
 instance (n : Net) : Decidable n.specLike := by unfold Net.specLike; exact inferInstance
 
@@ -545,7 +576,7 @@ theorem Net.step_good {p : Pop} {n n' : Net} {dt ti : Rat} {c : Choice} (g : Goo
     simp only [hkeys, colLen] at w4 w5 w6 w7
     refine ⟨w2, ?_, ?_, ?_, ?_, ?_⟩ <;> simp only [Table.matStep, hkeys, colLen, List.length_zipWith] <;>
       simp only [↓reduceIte] at * <;> omega
-  case random | erdos =>
+  case random | erdos | randomPlain =>
     have g1 := endPairs_good g dt p.alive part deb
     obtain ⟨g2, k2, v2⟩ := addPairs_good g1 h
     exact ⟨g2, k2, v2⟩
